@@ -47,7 +47,21 @@ func genOp(t *rapid.T, client, seq int) kit.Cmd {
 	uniq := fmt.Sprintf("c%d-%d", client, seq) // unique values: a reply delivered to the wrong client shows
 	switch typ {
 	case "s":
-		switch gen.Weighted(t, "sop", []int{5, 4, 3, 6, 3, 4, 2, 2, 2, 3, 3, 2}) {
+		switch gen.Weighted(t, "sop", []int{5, 4, 3, 6, 3, 4, 2, 2, 2, 3, 3, 2, 3, 3, 2}) {
+		case 12:
+			// deadlines far away: whether a deadline is attached or removed is part of the key's state
+			// (NX/XX depend on the presence of a deadline only; GT/LT would compare instants)
+			if opt := gen.Pick(t, "eopt", "", "", "NX", "XX"); opt != "" {
+				return kit.MkCmd("EXPIRE", k, "100000", opt)
+			}
+			return kit.MkCmd("EXPIRE", k, "100000")
+		case 13:
+			return kit.MkCmd("PERSIST", k)
+		case 14:
+			if rapid.Bool().Draw(t, "keepttl") {
+				return kit.MkCmd("SET", k, uniq, "KEEPTTL")
+			}
+			return kit.MkCmd("SET", k, uniq, "EX", "200000")
 		case 0:
 			return kit.MkCmd("GET", k)
 		case 1:
@@ -134,7 +148,9 @@ func genOp(t *rapid.T, client, seq int) kit.Cmd {
 	case "x":
 		// explicit IDs that mostly grow with the step (a late client is refused: also a legal outcome);
 		// a small MAXLEN so that every append trims: a reader must never see more entries than the bound
-		switch gen.Weighted(t, "xop", []int{5, 3, 5}) {
+		switch gen.Weighted(t, "xop", []int{5, 3, 5, 1}) {
+		case 3:
+			return kit.MkCmd("DEL", k)
 		case 0:
 			return kit.MkCmd("XADD", k, "MAXLEN", gen.Pick(t, "xml", "1", "2", "2", "3"), fmt.Sprintf("%d-%d", seq+1, client+1), "f", uniq)
 		case 1:
